@@ -285,4 +285,46 @@ theorem consulted_occ_valid (cfg : Cfg K) (hv : Valid cfg.core) {t : Nat} {s s1 
   rw [hocc, h1]
   exact occ_after_events hv hO st x
 
+/-! ### order -/
+
+/-- a `filterMap` whose results are values of `f` is a subsequence of the `f`-image, in order -/
+theorem filterMap_some_sublist {α β : Type} (f g : α → Option β) (h : ∀ a b, g a = some b → f a = some b) :
+    ∀ l : List α, ((l.filterMap g).map some).Sublist (l.map f) := by
+  intro l
+  induction l with
+  | nil => simp
+  | cons a l ih =>
+    cases hg : g a with
+    | none => rw [List.filterMap_cons_none hg, List.map_cons]; exact List.Sublist.cons _ ih
+    | some b =>
+      rw [List.filterMap_cons_some hg, List.map_cons, List.map_cons, h a b hg]
+      exact List.Sublist.cons_cons _ ih
+
+/-- `network.active_evs` walks `_EVSEs.values()`: the occupants, station by station in REGISTRATION
+    order, filtered by "not fully charged" -/
+theorem activeEvs_eq_filterMap (cfg : Cfg K) (s : State K) :
+    activeEvs cfg s = (cfg.stations.map fun st => occupantEv s st.id).filterMap (fun o => o.filter (isActive cfg)) := by
+  unfold activeEvs
+  rw [List.filterMap_map]
+  apply List.filterMap_congr
+  intro st _
+  simp only [Function.comp]
+  cases occupantEv s st.id with
+  | none => rfl
+  | some e => simp [Option.filter]
+
+theorem activeEvs_sublist (cfg : Cfg K) (s : State K) :
+    ((activeEvs cfg s).map some).Sublist (cfg.stations.map fun st => occupantEv s st.id) := by
+  unfold activeEvs
+  apply filterMap_some_sublist
+  intro st b hb
+  cases ho : occupantEv s st.id with
+  | none => rw [ho] at hb; simp at hb
+  | some e =>
+    rw [ho] at hb
+    simp only at hb
+    split at hb
+    · simpa using hb
+    · simp at hb
+
 end Acn.Sim
